@@ -14,6 +14,7 @@ EXPLANATION = ("Encoders: every `From<X> for RawControl` / `From<X> for Exop` is
 TRUSTED = ['lber serialisation of a shape (C07)', 'RFC tables transcribed in this module']
 UNDECIDED = ['byte-level equality of arbitrary field contents', 'EndTxnResp (not in the property\'s list of response values)']
 ASSUMPTIONS = []
+SHARED = [('C03', ('T1.dispatch',), 'Y0.response-name-and-value')]      # the name and value every extended-response parser starts from are lifted out of the ExtendedResponse by the LDAPResult decoder: [10] and [11], present = Some, whatever they contain
 
 def inline_policy(c):
     """Default impls and every function of the control / exop modules themselves (private helpers, integer conversions of their
